@@ -143,6 +143,8 @@ def run(ctx):
                 search(h, harvest(h, [ca, cb]), res, {'seed': seed, 'scenario': 'auth-failure', 'variant': name, 'rsa': rsa}, 'authentication failure ' + name)
             finally:
                 h.close()
+    # configurations that are wrong in or next to a secret: the text of the ConfigurationError is what the entry point logs at ERROR
+    config_errors_near_secrets(res, rng)
     # hostile datagrams through the loop (error paths of parsing) with a live session
     import c17
     seed = rng.randrange(1 << 30)
@@ -162,6 +164,47 @@ def run(ctx):
     res.sample({'searched forms': ['hex lower/upper', 'raw text (PSK, PEM body)', 'bytes repr'], 'secret kinds': ['psk', 'private-key', 'sk_d..sk_pr',
                                                                                                                   'dh-secret', 'child-key', 'debug-announced']})
     return res
+
+
+def config_errors_near_secrets(res, rng):
+    from ipaddress import ip_address
+    base_a, _ = W.default_conf()
+    name = list(base_a.keys())[0]
+    secrets = ['contrase\u00f1a-Zx81-kTq7-PLm3', 'top-secret-\ud800-psk-value', 'p\u00e4ssw\u00f6rd-\udcff-0123456789', 'plain-ascii-psk-0123456789',
+               '\U0001f511-key-emoji-psk-424242']
+    cases = []
+    for sec in secrets:
+        for side in ('my_auth', 'peer_auth'):
+            cases.append(('psk-text:%s' % side, sec, lambda c, sec=sec, side=side: c[side].__setitem__('psk', sec)))
+        cases.append(('psk-in-a-list', sec, lambda c, sec=sec: c['my_auth'].__setitem__('psk', [sec])))
+        cases.append(('psk-in-a-mapping', sec, lambda c, sec=sec: c['peer_auth'].__setitem__('psk', {'value': sec})))
+        cases.append(('psk-ok-id-wrong-type', sec, lambda c, sec=sec: (c['my_auth'].__setitem__('psk', sec), c['my_auth'].__setitem__('id', 12345))))
+        cases.append(('psk-ok-lifetime-wrong', sec, lambda c, sec=sec: (c['my_auth'].__setitem__('psk', sec), c.__setitem__('lifetime', 'soon'))))
+        cases.append(('psk-as-privkey', sec, lambda c, sec=sec: (c['my_auth'].pop('psk', None), c['my_auth'].__setitem__('privkey', sec))))
+        cases.append(('auth-not-a-mapping', sec, lambda c, sec=sec: c.__setitem__('my_auth', sec)))
+    for what, sec, fn in cases:
+        conf = copy.deepcopy(base_a)
+        try:
+            fn(conf[name])
+        except Exception:  # noqa
+            continue
+        res.evaluations += 1
+        res.nontrivial.add(('config-error', what, sec[:8]))
+        try:
+            CONF.Configuration([ip_address(W.IP_A)], conf)
+            res.count('config-near-secret:accepted')
+            continue
+        except CONF.ConfigurationError as ex:
+            text = 'Configuration error: %s' % ex          # pyikev2.py: logging.error(f'Configuration error: {ex}')
+        except Exception as ex:  # noqa — C19's subject; the traceback is not a log record
+            res.count('config-near-secret:crashed:%s' % type(ex).__name__)
+            continue
+        res.count('config-near-secret:rejected')
+        forms = {sec, sec.encode('unicode_escape').decode('ascii'), sec.encode('utf-8', 'surrogatepass').hex(), repr(sec)[1:-1]}
+        if any(f in text or f.lower() in text.lower() for f in forms if len(f) >= 8):
+            res.fail('secret-in-log:psk:ERROR', 'the text of the configuration error (logged at ERROR by the entry point) contains the secret (%s): %s'
+                     % (what, text.encode('unicode_escape').decode('ascii')[:200]), {'scenario': 'configuration error', 'case': what,
+                                                                                     'secret': sec.encode('unicode_escape').decode('ascii')})
 
 
 def replay(rep):
